@@ -1,3 +1,216 @@
-import GnoVerif.Model.C18Coins
+import GnoVerif.Proofs.C18Arith
+/-!
+# C18 — coin-set arithmetic matches the multiset model
+
+Model: `Model/C18Coins.lean` (mirrors `tm2/pkg/std/coin.go`; the int64 overflow
+test is regenerated from `tm2/pkg/overflow/overflow.go` into `Gen/C18Overflow.lean`).
+Spec: `Spec/C18Coins.lean` — a coin list denotes the finitely supported function
+`val cs : Denom → Int`; `Represents R f` says `R` is THE strictly sorted, zero-free
+list of `f` (unique by `canonical_form_unique`).
+
+Precondition of the arithmetic theorems (what the real merge needs): both
+operands strictly sorted by denomination (`Sorted`: hence no duplicate denoms);
+zero, negative and extreme amounts are allowed, denominations are arbitrary bytes.
+
+Two clauses of the statement are FALSE on the unchanged tree and are recorded
+as known findings (`known_findings/C18.json`); each has its full statement as a
+`def … : Prop`, a `…_counterexample` theorem and a `…_partial` theorem under the
+exact guard:
+* `Sub`/`SubUnsafe` with MinInt64 in the subtrahend (`negative` wraps);
+* `IsEqual` panics on valid sets of equal length and different denominations.
+
+The "never modify their operands" clause cannot be expressed over immutable
+lists; see `Model/C18Slices.lean` + `operands_unchanged` for the aliasing model,
+and the correspondence oracle (deep copy of both backing arrays before the
+call, comparison after) for the real code.
+-/
 namespace GnoVerif.C18
+open GnoVerif
+
+/-! ## canonical form -/
+
+/-- A function has at most one strictly sorted, zero-free coin list. -/
+theorem canonical_form_unique {R R' : Coins} {f : Denom → Int}
+    (h : Represents R f) (h' : Represents R' f) : R = R' :=
+  represents_unique h h'
+
+/-- `Coins.validate() == nil` / `IsValid` is exactly the statement's notion of a valid set. -/
+theorem isValid_iff (cs : Coins) : validate cs = true ↔ Valid cs := validate_iff cs
+
+example : Valid [⟨dA, 5#64⟩, ⟨dB, maxAmt⟩] := by decide
+example : Sorted [⟨dA, 5#64⟩, ⟨dB, 0#64⟩, ⟨dC, minAmt⟩] := by decide
+
+/-! ## AddUnsafe / Add -/
+
+/-- `AddUnsafe` on strictly sorted operands: it panics iff some per-denomination sum
+leaves int64 (and only with the overflow panic); otherwise it returns exactly the
+strictly sorted, zero-free list of the pointwise sum. -/
+theorem addUnsafe_spec (A B : Coins) (hA : Sorted A) (hB : Sorted B) :
+    ((∃ e, addUnsafe A B = .error e) ↔ Overflows (fun d => val A d + val B d)) ∧
+    (∀ e, addUnsafe A B = .error e → e = .overflow) ∧
+    (∀ R, addUnsafe A B = .ok R ↔
+      ¬ Overflows (fun d => val A d + val B d) ∧ Represents R (fun d => val A d + val B d)) :=
+  let h := addUnsafe_char hA hB
+  ⟨h.err_iff, h.err, h.ok_iff⟩
+
+/-- `Add`: overflow panic iff a sum overflows; "invalid result" panic iff no sum overflows
+but the summed set is invalid (a negative amount, or a non-zero amount under an ill-formed
+denom); otherwise the sorted zero-free sum (which is then a valid set). -/
+theorem add_spec (A B : Coins) (hA : Sorted A) (hB : Sorted B) :
+    (add A B = .error .overflow ↔ Overflows (fun d => val A d + val B d)) ∧
+    (add A B = .error .invalid ↔
+      ¬ Overflows (fun d => val A d + val B d) ∧ InvalidFn (fun d => val A d + val B d)) ∧
+    (∀ e, add A B = .error e → e = .overflow ∨ e = .invalid) ∧
+    (∀ R, add A B = .ok R ↔
+      ¬ Overflows (fun d => val A d + val B d) ∧ ¬ InvalidFn (fun d => val A d + val B d) ∧
+      Represents R (fun d => val A d + val B d)) := by
+  have h := checked_char (addUnsafe_char hA hB)
+  rw [← add_eq_checked] at h
+  exact ⟨h.overflow_iff, h.invalid_iff, h.err, h.ok_iff⟩
+
+/-- `Add` panics exactly when a result amount overflows or the result is invalid. -/
+theorem add_panics_iff (A B : Coins) (hA : Sorted A) (hB : Sorted B) :
+    (∃ e, add A B = .error e) ↔
+      Overflows (fun d => val A d + val B d) ∨ InvalidFn (fun d => val A d + val B d) := by
+  obtain ⟨h1, h2, h3, _⟩ := add_spec A B hA hB
+  constructor
+  · intro ⟨e, he⟩
+    rcases h3 e he with e1 | e1 <;> subst e1
+    · exact Or.inl (h1.mp he)
+    · exact Or.inr (h2.mp he).2
+  · intro h
+    by_cases ho : Overflows (fun d => val A d + val B d)
+    · exact ⟨_, h1.mpr ho⟩
+    · rcases h with h | h
+      · exact absurd h ho
+      · exact ⟨_, h2.mpr ⟨ho, h⟩⟩
+
+/-- the result of a successful `Add` is a valid coin set. -/
+theorem add_ok_valid (A B R : Coins) (hA : Sorted A) (hB : Sorted B) (h : add A B = .ok R) : Valid R := by
+  obtain ⟨_, hv, hr⟩ := ((add_spec A B hA hB).2.2.2 R).mp h
+  exact (represents_valid_iff hr).mpr hv
+
+/-! ## SubUnsafe / Sub -/
+
+/-- What the code does, exactly, for ALL strictly sorted operands: `SubUnsafe A B` is
+`AddUnsafe A (negative B)` and `negative` is Go's wrapping `-1 * x`, i.e. `negWrap`
+(MinInt64 stays MinInt64). -/
+theorem subUnsafe_exact (A B : Coins) (hA : Sorted A) (hB : Sorted B) :
+    ((∃ e, subUnsafe A B = .error e) ↔ Overflows (fun d => val A d + negWrap (val B d))) ∧
+    (∀ e, subUnsafe A B = .error e → e = .overflow) ∧
+    (∀ R, subUnsafe A B = .ok R ↔
+      ¬ Overflows (fun d => val A d + negWrap (val B d)) ∧ Represents R (fun d => val A d + negWrap (val B d))) :=
+  let h := subUnsafe_char hA hB
+  ⟨h.err_iff, h.err, h.ok_iff⟩
+
+theorem sub_exact (A B : Coins) (hA : Sorted A) (hB : Sorted B) :
+    (sub A B = .error .overflow ↔ Overflows (fun d => val A d + negWrap (val B d))) ∧
+    (sub A B = .error .invalid ↔
+      ¬ Overflows (fun d => val A d + negWrap (val B d)) ∧ InvalidFn (fun d => val A d + negWrap (val B d))) ∧
+    (∀ e, sub A B = .error e → e = .overflow ∨ e = .invalid) ∧
+    (∀ R, sub A B = .ok R ↔
+      ¬ Overflows (fun d => val A d + negWrap (val B d)) ∧ ¬ InvalidFn (fun d => val A d + negWrap (val B d)) ∧
+      Represents R (fun d => val A d + negWrap (val B d))) := by
+  have h := checked_char (subUnsafe_char hA hB)
+  rw [← sub_eq_checked] at h
+  exact ⟨h.overflow_iff, h.invalid_iff, h.err, h.ok_iff⟩
+
+/-- The property statement for `SubUnsafe` (per-denomination DIFFERENCE). False: see the counter-example. -/
+def subUnsafe_statement : Prop :=
+  ∀ A B : Coins, Sorted A → Sorted B →
+    ((∃ e, subUnsafe A B = .error e) ↔ Overflows (fun d => val A d - val B d)) ∧
+    (∀ R, subUnsafe A B = .ok R ↔
+      ¬ Overflows (fun d => val A d - val B d) ∧ Represents R (fun d => val A d - val B d))
+
+/-- The property statement for `Sub`. False: see the counter-example. -/
+def sub_statement : Prop :=
+  ∀ A B : Coins, Sorted A → Sorted B →
+    ((∃ e, sub A B = .error e) ↔
+      Overflows (fun d => val A d - val B d) ∨ InvalidFn (fun d => val A d - val B d)) ∧
+    (∀ R, sub A B = .ok R ↔
+      ¬ Overflows (fun d => val A d - val B d) ∧ ¬ InvalidFn (fun d => val A d - val B d) ∧
+      Represents R (fun d => val A d - val B d))
+
+/-- The statement holds whenever the subtrahend holds no MinInt64 amount (the exact guard). -/
+theorem subUnsafe_spec_partial (A B : Coins) (hA : Sorted A) (hB : Sorted B)
+    (hmin : ∀ b ∈ B, b.amount.toInt ≠ i64Min) :
+    ((∃ e, subUnsafe A B = .error e) ↔ Overflows (fun d => val A d - val B d)) ∧
+    (∀ e, subUnsafe A B = .error e → e = .overflow) ∧
+    (∀ R, subUnsafe A B = .ok R ↔
+      ¬ Overflows (fun d => val A d - val B d) ∧ Represents R (fun d => val A d - val B d)) := by
+  have e : (fun d => val A d + negWrap (val B d)) = (fun d => val A d - val B d) := by
+    funext d; rw [negWrap_val_of_noMin hB hmin, Int.sub_eq_add_neg]
+  have h := subUnsafe_exact A B hA hB
+  rw [e] at h
+  exact h
+
+theorem sub_spec_partial (A B : Coins) (hA : Sorted A) (hB : Sorted B)
+    (hmin : ∀ b ∈ B, b.amount.toInt ≠ i64Min) :
+    (sub A B = .error .overflow ↔ Overflows (fun d => val A d - val B d)) ∧
+    (sub A B = .error .invalid ↔
+      ¬ Overflows (fun d => val A d - val B d) ∧ InvalidFn (fun d => val A d - val B d)) ∧
+    (∀ e, sub A B = .error e → e = .overflow ∨ e = .invalid) ∧
+    (∀ R, sub A B = .ok R ↔
+      ¬ Overflows (fun d => val A d - val B d) ∧ ¬ InvalidFn (fun d => val A d - val B d) ∧
+      Represents R (fun d => val A d - val B d)) := by
+  have e : (fun d => val A d + negWrap (val B d)) = (fun d => val A d - val B d) := by
+    funext d; rw [negWrap_val_of_noMin hB hmin, Int.sub_eq_add_neg]
+  have h := sub_exact A B hA hB
+  rw [e] at h
+  exact h
+
+/-- `Sub` panics exactly when a result amount overflows or the result is invalid — under the guard. -/
+theorem sub_panics_iff_partial (A B : Coins) (hA : Sorted A) (hB : Sorted B)
+    (hmin : ∀ b ∈ B, b.amount.toInt ≠ i64Min) :
+    (∃ e, sub A B = .error e) ↔
+      Overflows (fun d => val A d - val B d) ∨ InvalidFn (fun d => val A d - val B d) := by
+  obtain ⟨h1, h2, h3, _⟩ := sub_spec_partial A B hA hB hmin
+  constructor
+  · intro ⟨e, he⟩
+    rcases h3 e he with e1 | e1 <;> subst e1
+    · exact Or.inl (h1.mp he)
+    · exact Or.inr (h2.mp he).2
+  · intro h
+    by_cases ho : Overflows (fun d => val A d - val B d)
+    · exact ⟨_, h1.mpr ho⟩
+    · rcases h with h | h
+      · exact absurd h ho
+      · exact ⟨_, h2.mpr ⟨ho, h⟩⟩
+
+example : Sorted [⟨dA, 5#64⟩] ∧ Sorted [⟨dA, 7#64⟩, ⟨dB, maxAmt⟩] ∧
+    ∀ b ∈ ([⟨dA, 7#64⟩, ⟨dB, maxAmt⟩] : Coins), b.amount.toInt ≠ i64Min := by decide
+
+/-- KNOWN FINDING `minint64-negate`: `{} − {aaa:MinInt64}` is `2^63`, which overflows, yet
+`SubUnsafe` returns (the wrapped) `{aaa:MinInt64}` instead of panicking. -/
+theorem subUnsafe_minint64_counterexample : ¬ subUnsafe_statement := by
+  intro hst
+  have hB : Sorted [⟨dA, minAmt⟩] := by decide
+  obtain ⟨h1, _⟩ := hst [] [⟨dA, minAmt⟩] sorted_nil hB
+  have hov : Overflows (fun d => val [] d - val [⟨dA, minAmt⟩] d) := ⟨dA, by decide⟩
+  obtain ⟨e, he⟩ := h1.mpr hov
+  obtain ⟨d, hd⟩ := (subUnsafe_exact [] [⟨dA, minAmt⟩] sorted_nil hB).1.mp ⟨e, he⟩
+  apply hd
+  simp only [val_nil, val_cons, Int.zero_add, Int.add_zero]
+  split <;> decide
+
+/-- KNOWN FINDING `minint64-negate`: `{aaa:−1} − {aaa:MinInt64} = {aaa:MaxInt64}` is representable
+and valid, yet `Sub` panics (overflow). -/
+theorem sub_minint64_counterexample : ¬ sub_statement := by
+  intro hst
+  have hA : Sorted [⟨dA, BitVec.ofInt 64 (-1)⟩] := by decide
+  have hB : Sorted [⟨dA, minAmt⟩] := by decide
+  obtain ⟨h1, _⟩ := hst [⟨dA, BitVec.ofInt 64 (-1)⟩] [⟨dA, minAmt⟩] hA hB
+  have hov : Overflows (fun d => val [⟨dA, BitVec.ofInt 64 (-1)⟩] d + negWrap (val [⟨dA, minAmt⟩] d)) :=
+    ⟨dA, by decide⟩
+  have hpanic := (sub_exact _ _ hA hB).1.mpr hov
+  rcases h1.mp ⟨_, hpanic⟩ with ⟨d, hd⟩ | ⟨d, hd0, hd⟩
+  · apply hd
+    simp only [val_nil, val_cons, Int.add_zero]
+    split <;> decide
+  · apply hd
+    simp only [val_nil, val_cons, Int.add_zero] at hd0 ⊢
+    split at hd0
+    · next e => subst e; decide
+    · exact absurd rfl hd0
+
 end GnoVerif.C18
